@@ -14,11 +14,11 @@ CLAIMED = {
  "C02": ("exploration",
   "property-based testing (rapid) with an instrumented reader and watchdog + native fuzzing",
   "Generated hostile inputs incl. loop-targeting classes; oracle: bytes requested <= 4*len+64KiB, Read calls <= len+1024, returns within 10s+50us/byte (confirmed by a solo re-run). Bounded search.",
-  "Trusted: the instrumented ReadSeeker counts; wall clock only for confirmed non-termination."),
+  "Trusted: the instrumented ReadSeeker counts; wall clock only for confirmed non-termination. Loop classes now include PNG chunk lengths that are negative as int32, XMP tokens of up to 1 MB and SubIFDs arrays of up to 128 pointers."),
  "C03": ("exploration",
   "property-based testing (rapid): round trip through an independent TIFF/Exif encoder, record as oracle",
   "decode(encode(record, layout)) is compared field by field with the record through a spec-written interpretation; layouts cover block order, padding, foreign tags, embedded vs out-of-line, the 84-pending-tag and 128-entry limits, both byte orders, buffered and unbuffered entry points; fixed-seed records are re-encoded with IFD0 at every offset 8..4500 (thorough 12700) so that every structure crosses every 1 KiB / 4 KiB reader-window boundary; further checks cover directories at the 85 / 128 entry limits, SHORT/LONG arrays stored out of line (ISO, strips) and text values around and beyond the reader windows.",
-  "Trusted: the check's own TIFF/Exif encoder (written from TIFF 6.0/Exif 2.32, with an independent re-parse self-test) and field model (DESIGN Appendix A). Two recorded findings (text values longer than the reader window are reported as absent)."),
+  "Trusted: the check's own TIFF/Exif encoder (written from TIFF 6.0/Exif 2.32, with an independent re-parse self-test) and field model (DESIGN Appendix A). Four recorded findings (text values longer than the reader window reported as absent; exposure compensation whose reduced fraction needs more than 8+8 bits; dimensions above 65535)."),
  "C06": ("exploration",
   "property-based testing (rapid): differential across containers + record oracle",
   "The same generated payload in TIFF/JPEG/PNG/CR3(CMT1 and split)/HEIF with random surroundings must give identical masked digests through every corresponding entry point and equal the record; a second check (filler independence) puts format-valid filler of every length up to one (thorough: three) 4 KiB buffers in front of the block in JPEG/PNG/CR3/HEIF and requires the result of the same file without filler.",
